@@ -267,6 +267,7 @@ pub fn run(run: &Run) {
         run.count(&format!("reference_formatter_agrees_{}", f.name), agree);
         run.count(&format!("reference_formatter_disagrees_{}", f.name), vals.len() as u64 - agree);
         vals.par_iter().for_each(|v| {
+            let _w = crate::watch::enter(&v.show());
             run.eval(1);
             if let Err(msg) = crate::watch::case(&v.show(), || case(&f, v)) {
                 run.violation(
@@ -304,6 +305,7 @@ pub fn run(run: &Run) {
         run.bound("order_keys_tried_per_set", json!(max_keys));
         let envs = std::sync::atomic::AtomicU64::new(0);
         fam.par_iter().for_each(|r| {
+            let _w = crate::watch::enter(&r.show());
             let v = V::term(r.clone());
             let expect = v.canon();
             let make = || r.build();
